@@ -8,7 +8,7 @@ from ..models import Sym, make_interp
 from ..values import NONE, DictV, Hole, IntV, ListV, Obj, Str, Unknown
 
 FLOORS = {"C17.R1.no-swallowing-handler": 3, "C17.R2.logged-error-raises": 3, "C17.R3.faults-propagate": 20,
-          "C17.R4.times-validated": 4, "C17.R5.shape-guards": 10, "C17.R5.config-types": 6, "C17.R7.cli-propagates": 1}
+          "C17.R4.times-validated": 4, "C17.R5.shape-guards": 10, "C17.R5.config-types": 6, "C17.R7.cli-propagates": 1, "C17.R6.undefined-macro-reported": 12}
 
 CLASSIFIERS = {"OperandsParser.operand_is_int": "classifies an operand string (not an I/O or validation path)",
                "OperandsParser.operand_is_hex": "classifies an operand string",
@@ -145,6 +145,10 @@ def run(ctx) -> None:
         ok = bool(paths) and all(p.kind == "raise" for p in paths)
         ctx.check(ok, "C17.R5.config-types", f"JASMConfig.load_config[{label}]", f"config {cfg} accepted",
                   f"an invalid config value ({label}) is rejected with an error")
+    # R6 an undefined macro is an error (shared with C19)
+    from .c19 import shape_rules
+    shape_rules(ctx, I, "C17.R6.undefined-macro-reported", "C17.R6.defined-macros-expand", "C17.R6.expander-entered",
+                only_undefined=True)
     # R7 the CLI propagates
     def failing(I, func, self_val, args, kwargs, node, fr):
         I.raise_exc("BinaryFileFormatNotSupported", [Str.lit("boom")], node, fr)
